@@ -94,3 +94,72 @@ contract(f"{TDB}.search", shapes={"self": T.obj(TDB, database=T.opaque("tinydb_t
                   "the_query_denotes_the_filter": "implies(data_request.filter is not None, model('query_formula', ghost('db_calls')[0][1]) == tinydb_filter_matches(data_request.filter))",
                   "exactly_the_found_documents_of_a_requested_type_in_order": "[r['dataObject'] for r in result] == [r['dataObject'] for r in ghost('db_calls')[0][len(ghost('db_calls')[0]) - 1] if message_type_id(r) in data_request.data_object_type]"},
          **dict(S, engine_setup=setup_tinydb_search))
+
+
+# ------------------------------------------------------------------------------------------- TinyDB remove: one copy only
+def setup_tinydb_remove(e):
+    """table.all() answers 0..3 documents; a document is an opaque mapping with an integer doc_id; whether dict(document)
+    equals the argument is an arbitrary boolean per document (so every combination of equal copies is explored)"""
+    models_tinydb.setup(e)
+    import z3
+    from pyvc.values import Opaque, Obj, NONE, TupleV
+    e.opaque_as_dict = {"tinydb_doc"}
+    e.opaque_operators = set(e.opaque_operators) | {"tinydb_docdict"}
+    e.used_assumptions.add("tinydb table seen from TinyDB.remove: all() returns 0..3 documents with pairwise distinct doc_id; "
+                           "remove(doc_ids=...) is recorded; equality of a stored document with the argument is an arbitrary boolean per document")
+
+    def h_table(e2, st, o, name, args, kwargs):
+        if name == "all":
+            for n in range(4):
+                docs, s1 = [], st
+                for i in range(n):
+                    did = e2.T.const(e2.fresh("doc_id"))
+                    for d in docs:
+                        s1 = s1.assume(d.data["doc_id"] != did)
+                    eq = z3.Bool(e2.fresh("doc_equals_argument"))
+                    docs.append(Opaque("tinydb_doc", _mm._ident(e2, "tinydb_doc", f"doc{i}"), {"doc_id": did, "eq": eq}))
+                    s1 = s1.ghost_append("doc_ids", did).ghost_append("doc_eq", eq)
+                yield s1.alloc(Obj(None, "list", None, docs))
+        elif name == "remove":
+            ids = kwargs.get("doc_ids")
+            items = e2.iter_items(st, ids)
+            if items is None:
+                raise _mm.Unsupported("remove(doc_ids=<non-meta>)")
+            s1 = st
+            for it in items:
+                s1 = s1.ghost_append("removed_ids", it)
+            yield s1.ghost_count("remove_calls", 1), NONE
+        else:
+            raise NotImplementedError(name)
+
+    def h_doc(e2, st, o, name, args, kwargs):
+        if name == "__as_dict__":
+            yield st, Opaque("tinydb_docdict", o.ident, dict(o.data))
+        else:
+            raise NotImplementedError(name)
+
+    def h_docdict(e2, st, o, name, args, kwargs):
+        if name == "__eq__":
+            yield st, o.data["eq"]
+        elif name == "__ne__":
+            yield st, z3.Not(o.data["eq"])
+        else:
+            raise NotImplementedError(name)
+    e.opaque_handlers.update({"tinydb_table_r": h_table, "tinydb_doc": h_doc, "tinydb_docdict": h_docdict})
+    orig = e.opaque_attr
+
+    def attr(st, o, name):
+        if o.typ == "tinydb_doc" and name == "doc_id":
+            return o.data["doc_id"]
+        return orig(st, o, name)
+    e.opaque_attr = attr
+
+
+from pyvc import models as _mm
+contract(f"{TDB}.remove", bound="tables holding 0..3 documents", props=["C13", "C12"],
+         shapes={"self": T.obj(TDB, database=T.opaque("tinydb_table_r"), _lock=T.opaque("rlock")), "data_object": T.opaque("object")},
+         ensures={"true_iff_some_stored_document_equals_the_argument": "result == any(ghost('doc_eq'))",
+                  "exactly_one_document_is_removed_when_one_matches_and_none_otherwise": "len(ghost('removed_ids')) == (1 if any(ghost('doc_eq')) else 0)",
+                  "the_removed_document_is_the_first_equal_one": "implies(len(ghost('removed_ids')) >= 1, ghost('removed_ids')[0] == [ghost('doc_ids')[i] for i in range(len(ghost('doc_ids'))) if ghost('doc_eq')[i]][0])"},
+         cover=["result", "not result", "len(ghost('doc_ids')) == 3"],
+         **{k: v for k, v in dict(S, engine_setup=setup_tinydb_remove).items() if k != "props"})
